@@ -334,7 +334,7 @@ CHECKS["C05"] = {
 def _c20(cases, **kw):
     out = []
     for (k, ops, eps, lens) in cases:
-        g = {"harness": "VerifC20Cache", "params": {"k": k, "ops": ops, "eps": eps, "lens": lens, "typ": [0, 1, 2], "mix": 0}, "prune": 1000, "timeout_ms": 300000}
+        g = {"harness": "VerifC20Cache", "params": {"k": k, "ops": ops, "eps": eps, "lens": lens, "typ": [0, 1, 2], "mix": 0, "two": 0}, "prune": 1000, "timeout_ms": 300000}
         if ops != 0:
             # sequences with an invalidation / trim: every request asks all three duty types (cross-type interference)
             g["params"]["typ"] = 0
@@ -352,10 +352,10 @@ CHECKS["C20"] = {
                      + [(3, 0, 0, l) for l in (21, 25, 37, 22, 41, 26)] + [(3, 3, e, 17) for e in (0, 1, 4, 5)] + [(3, 6, e, 17) for e in (0, 5)]
                      + [(3, 1, 6, 20), (3, 2, 6, 20), (4, 3 + 0 * 27, 13, 1 + 16 + 64)], case_timeout_s=6000),
     "bounds": {
-        "quick": "two overlapping requests (index sets of 2 and 1 validators, then a request for 1; attester duties): the second request runs, whole, between the first one's cache lookup and its store (interference point = the Lock in storeOrAmendAttesterDuties, looked up in the current source) or before its lookup; every answer, during and after, must be the beacon node's; proposer, attester and sync-committee duties caches; 3 validators x 2 epochs, at most one duty per validator and epoch with symbolic presence and content, two table generations (reorg changes the later epoch); sequences of 2 requests (index-list lengths 0..2 concrete per case, the requested validators symbolic and distinct, same or different epochs) and request/invalidate/request, request/trim/request; private copies checked by object identity between successive answers",
+        "quick": "a validator with two proposer duties in one epoch (two requests); a reorg invalidation or a trim of the epoch while a request's beacon call is in flight (interference at the store lock); two overlapping requests (index sets of 2 and 1 validators, then a request for 1; attester duties): the second request runs, whole, between the first one's cache lookup and its store (interference point = the Lock in storeOrAmendAttesterDuties, looked up in the current source) or before its lookup; every answer, during and after, must be the beacon node's; proposer, attester and sync-committee duties caches; 3 validators x 2 epochs, at most one duty per validator and epoch with symbolic presence and content, two table generations (reorg changes the later epoch); sequences of 2 requests (index-list lengths 0..2 concrete per case, the requested validators symbolic and distinct, same or different epochs) and request/invalidate/request, request/trim/request; private copies checked by object identity between successive answers",
         "thorough": "all length/epoch combinations for 2 requests, selected 3-request sequences, invalidate/trim at other positions",
     },
-    "outside": "more than two overlapping callers and interference at other lock points than the registered ones; validators with several duties in one epoch; duplicate indices in one request; metadata maps; more than 3 validators / 2 epochs",
+    "outside": "more than two overlapping callers and interference at other lock points than the registered ones; validators with more than two duties in one epoch; duplicate indices in one request; metadata maps; more than 3 validators / 2 epochs",
     "assumptions": [
         "the beacon node is a harness implementation of the three duty calls that filters a symbolic assignment table by the requested indices (empty list = no filter) and never fails",
         "sync.RWMutex modelled as a lock bit; metrics/logging are no-ops",
@@ -366,12 +366,18 @@ CHECKS["C20"] = {
 _C9R = []
 _C20_CACHE = "app/eth2wrap/cache.go"
 CHECKS["C20"]["quick"] = CHECKS["C20"]["quick"] + [
-    {"harness": "VerifC20Intf", "params": {"typ": 1, "npre": 0, "na": 2, "nb": 1, "nc": 1, "intf_line": lock_lines(_C20_CACHE, r"storeOrAmendAttesterDuties")}, "prune": 1000, "timeout_ms": 120000, "case_timeout_s": 3000},
+    {"harness": "VerifC20Intf", "params": {"intfkind": 0, "typ": 1, "npre": 0, "na": 2, "nb": 1, "nc": 1, "intf_line": lock_lines(_C20_CACHE, r"storeOrAmendAttesterDuties")}, "prune": 1000, "timeout_ms": 120000, "case_timeout_s": 3000},
+    # the other thread invalidates (reorg) or trims the epoch while the first one's beacon call is in flight
+    {"harness": "VerifC20Intf", "params": {"intfkind": [1, 2], "typ": 1, "npre": 1, "na": 2, "nb": 0, "nc": 1, "intf_line": lock_lines(_C20_CACHE, r"storeOrAmendAttesterDuties")}, "prune": 1000, "timeout_ms": 120000, "case_timeout_s": 3000},
+    # a validator with two proposer duties in the epoch
+    {"harness": "VerifC20Cache", "params": {"k": 2, "ops": 0, "eps": 0, "lens": [6, 10], "typ": 0, "mix": 0, "two": 1}, "prune": 1000, "timeout_ms": 300000},
 ]
 CHECKS["C20"]["thorough"] = CHECKS["C20"]["thorough"] + [
-    {"harness": "VerifC20Intf", "params": {"typ": 1, "npre": [0, 1], "na": [1, 2], "nb": 2, "nc": [1, 2], "intf_line": lock_lines(_C20_CACHE, r"storeOrAmendAttesterDuties|fetchAttesterDuties")}, "prune": 1000, "timeout_ms": 300000, "case_timeout_s": 6000},
-    {"harness": "VerifC20Intf", "params": {"typ": 0, "npre": 1, "na": 2, "nb": 2, "nc": 1, "intf_line": lock_lines(_C20_CACHE, r"storeOrAmendProposerDuties|fetchProposerDuties")}, "prune": 1000, "timeout_ms": 300000, "case_timeout_s": 6000},
-    {"harness": "VerifC20Intf", "params": {"typ": 2, "npre": 1, "na": 2, "nb": 2, "nc": 1, "intf_line": lock_lines(_C20_CACHE, r"storeOrAmendSyncDuties|fetchSyncDuties")}, "prune": 1000, "timeout_ms": 300000, "case_timeout_s": 6000},
+    {"harness": "VerifC20Intf", "params": {"intfkind": 0, "typ": 1, "npre": [0, 1], "na": [1, 2], "nb": 2, "nc": [1, 2], "intf_line": lock_lines(_C20_CACHE, r"storeOrAmendAttesterDuties|fetchAttesterDuties")}, "prune": 1000, "timeout_ms": 300000, "case_timeout_s": 6000},
+    {"harness": "VerifC20Intf", "params": {"intfkind": [0, 1], "typ": 0, "npre": 1, "na": 2, "nb": 2, "nc": 1, "intf_line": lock_lines(_C20_CACHE, r"storeOrAmendProposerDuties|fetchProposerDuties")}, "prune": 1000, "timeout_ms": 300000, "case_timeout_s": 6000},
+    {"harness": "VerifC20Cache", "params": {"k": 2, "ops": 0, "eps": [0, 1], "lens": [5, 6, 9, 10], "typ": 0, "mix": 0, "two": 1}, "prune": 1000, "timeout_ms": 300000},
+    {"harness": "VerifC20Intf", "params": {"intfkind": [1, 2], "typ": [0, 1, 2], "npre": 1, "na": 2, "nb": 0, "nc": [1, 2], "intf_line": lock_lines(_C20_CACHE, r"storeOrAmend(Attester|Proposer|Sync)Duties")}, "prune": 1000, "timeout_ms": 300000, "case_timeout_s": 6000},
+    {"harness": "VerifC20Intf", "params": {"intfkind": [0, 2], "typ": 2, "npre": 1, "na": 2, "nb": 2, "nc": 1, "intf_line": lock_lines(_C20_CACHE, r"storeOrAmendSyncDuties|fetchSyncDuties")}, "prune": 1000, "timeout_ms": 300000, "case_timeout_s": 6000},
 ]
 
 CHECKS["C09"] = {
